@@ -2055,6 +2055,18 @@ def literal_items(it: T, unname=lambda v: v) -> Optional[List[T]]:
         if any(x.op == "star" for x in it.args):
             return None
         return list(it.args)
+    if it.op == "const" and isinstance(tm.const_val(it), str) and \
+            len(tm.const_val(it)) <= 8:
+        return [const(ch) for ch in tm.const_val(it)]   # characters
+    if it.op == "sub" and it.args[1].op == "slice":
+        base = unname(it.args[0])
+        lo, hi, st = it.args[1].args
+        if base.op == "const" and isinstance(tm.const_val(base), str) and \
+                all(z is NONE or (tm.is_const(z) and isinstance(
+                    tm.const_val(z), int)) for z in (lo, hi, st)):
+            sl = slice(*[None if z is NONE else tm.const_val(z)
+                         for z in (lo, hi, st)])
+            return [const(ch) for ch in tm.const_val(base)[sl]]
     if is_range_literal(it):
         return [const(k) for k in range_values(it)]
     name = tm.callee_name(it) if it.op == "call" else None
